@@ -553,9 +553,44 @@ def _edit_closure(ctx):
         base.append(_m(cls, mname))
     out = list(base)
     for fd in cg.reachable(base):
-        if fd.module.name == 'data' and fd.cls is not None and fd.cls.name in ('TexNode', 'TexExpr') and fd not in out \
-                and fd.name.startswith('_') and not fd.name.startswith('__') :
+        if fd.module.name != 'data' or fd.cls is None or fd.cls.name not in ('TexNode', 'TexExpr') or fd in out:
+            continue
+        if fd.name.startswith('_') and not fd.name.startswith('__'):
             out.append(fd)
+        elif not (fd.name.startswith('__') and fd.name.endswith('__')) and 'property' not in fd.decorators \
+                and len(fd.params()) >= 2 and (_equality_sites(fd.node) or _identity_loops(fd.node)) \
+                and any(isinstance(n, ast.Call) and isinstance(n.func, ast.Attribute) and n.func.attr == fd.name
+                        for b in out for n in ast.walk(b.node)):
+            # a public look-up helper called by an edit method (e.g. index_of)
+            out.append(fd)
+    return out
+
+
+def _equality_sites(fnode):
+    out = []
+    for n in ast.walk(fnode):
+        if isinstance(n, ast.Call) and isinstance(n.func, ast.Attribute) and n.func.attr in ('index', 'remove', 'count') \
+                and _is_content_list(n.func.value):
+            out.append((n, '%s(...)' % n.func.attr))
+        elif isinstance(n, ast.Compare) and len(n.ops) == 1 and isinstance(n.ops[0], (ast.In, ast.NotIn)) \
+                and _is_content_list(n.comparators[0]):
+            out.append((n, 'membership test'))
+    return out
+
+
+def _identity_loops(fnode):
+    """`for .. in [enumerate(]<content list>[)]: if <x> is <y>: return/assign/break`  and identity generators"""
+    out = []
+    for n in ast.walk(fnode):
+        if isinstance(n, ast.For):
+            it = n.iter
+            if isinstance(it, ast.Call) and norm(it.func) == 'enumerate' and it.args:
+                it = it.args[0]
+            if _is_content_list(it) and any(isinstance(x, ast.If) and _identity_search(x.test) for x in ast.walk(n)):
+                out.append(n)
+        elif isinstance(n, (ast.GeneratorExp, ast.ListComp)) and _identity_search(n) and any(
+                _is_content_list(g.iter) or 'enumerate' in norm(g.iter) for g in n.generators):
+            out.append(n)
     return out
 
 
@@ -583,6 +618,20 @@ def r05_e(ctx):
                     rr.fail(Finding('R05.e', 'data', fd.qual, c, '%s tries %s and treats an exception as "not in this '
                                     'container"; remove() also succeeds on a different node with the same text, so the wrong '
                                     'container is edited when a look-alike sits there' % (fd.qual, norm(c)[:40]), line=c.lineno))
+    # ... nor asks a look-up helper that falls back to equality whether the container holds the target
+    closure = _edit_closure(ctx)
+    with_eq = {f.name for f in closure if _equality_sites(f.node)}
+    for fd in closure:
+        for t in ast.walk(fd.node):
+            if not isinstance(t, (ast.If, ast.IfExp, ast.While)):
+                continue
+            for c in ast.walk(t.test):
+                if isinstance(c, ast.Call) and isinstance(c.func, ast.Attribute) and c.func.attr in with_eq \
+                        and c.func.attr not in ('remove',) and norm(c.func.value) != 'self':
+                    rr.ob(False, {'function': fd.qual, 'container_test': norm(t.test)[:60]})
+                    rr.fail(Finding('R05.e', 'data', fd.qual, c, '%s decides which container holds the target with %s, a '
+                                    'look-up that falls back to an equality search: a look-alike in an earlier container '
+                                    'is edited instead of the target' % (fd.qual, norm(c)[:40]), line=c.lineno))
     return rr
 
 
@@ -598,16 +647,9 @@ def r05_a(ctx):
         rr.ob(True, {'expression_equality': 'identity (default)'})
     n_sites = 0
     for fd in _edit_closure(ctx):
-        for n in ast.walk(fd.node):
-            site = None
-            if isinstance(n, ast.Call) and isinstance(n.func, ast.Attribute) and n.func.attr in ('index', 'remove', 'count') \
-                    and _is_content_list(n.func.value):
-                site = (n, '%s(...)' % n.func.attr)
-            elif isinstance(n, ast.Compare) and len(n.ops) == 1 and isinstance(n.ops[0], (ast.In, ast.NotIn)) \
-                    and _is_content_list(n.comparators[0]):
-                site = (n, 'membership test')
-            if site is None:
-                continue
+        idloops = _identity_loops(fd.node)
+        for n, what in _equality_sites(fd.node):
+            site = (n, what)
             n_sites += 1
             # excused: equality fallback taken only after an identity search failed
             excused = False
@@ -620,6 +662,11 @@ def r05_a(ctx):
                         if isinstance(a, ast.Assign) and norm(a.targets[0]) == var and _identity_search(a.value):
                             excused = True
                 p = getattr(p, '_parent', None)
+            # ... or an identity loop over the list that returns on a hit stands before it in the function body
+            for lp in idloops:
+                if isinstance(lp, ast.For) and lp in fd.node.body and lp.end_lineno < n.lineno and any(
+                        isinstance(x, ast.Return) for x in ast.walk(lp)) and not lp.orelse:
+                    excused = True
             ok = (not eq_textual) or excused
             rr.ob(ok, {'mutator': fd.qual, 'search': norm(site[0])[:60], 'identity_first': excused})
             if not ok:
@@ -627,11 +674,9 @@ def r05_a(ctx):
                                 'content list; expressions are equal when their text is equal, so with two identical '
                                 'nodes the first one is edited whichever was targeted' % (fd.qual, site[1]), line=site[0].lineno))
         # identity searches count as instances too
-        for n in ast.walk(fd.node):
-            if isinstance(n, (ast.GeneratorExp, ast.ListComp)) and _identity_search(n) and any(_is_content_list(g.iter) or
-                                                                                                 'enumerate' in norm(g.iter) for g in n.generators):
-                n_sites += 1
-                rr.ob(True, {'mutator': fd.qual, 'search': norm(n)[:60], 'by_identity': True})
+        for n in idloops:
+            n_sites += 1
+            rr.ob(True, {'mutator': fd.qual, 'search': norm(n)[:60], 'by_identity': True})
     if n_sites == 0:
         raise AnalysisError('no child look-up found in the edit methods')
     return rr
@@ -831,7 +876,7 @@ def r15_b(ctx):
     repo = ctx.repo
     rr = RuleResult('R15.b', 'views are recomputed from the expression tree on every access: no view stores on the node, '
                     'no view is memoised', floor=10)
-    ok_decos = {'property', 'to_list'}
+    ok_decos = {'property', 'to_list', 'staticmethod', 'classmethod'}
     for cname in ('TexNode', 'TexExpr', 'TexEnv', 'TexNamedEnv', 'TexCmd', 'TexText', 'TexArgs'):
         cls = repo.need_cls('data.' + cname)
         for nm, fds in cls.methods.items():
@@ -928,18 +973,67 @@ def r15_c(ctx):
         def calls_in(s):
             return [x for x in ast.walk(s) if isinstance(x, ast.Call)]
 
+        def elem_kind(e, x, k):
+            """kind of expression e when the element variable x has kind k"""
+            if isinstance(e, ast.Name) and e.id == x:
+                return k
+            if isinstance(e, ast.Attribute) and isinstance(e.value, ast.Name) and e.value.id == x and e.attr == 'expr':
+                return 'TexExpr' if k == 'TexNode' else 'unknown'
+            if isinstance(e, ast.Call) and norm(e.func) == 'TexText':
+                return 'TexExpr'
+            if isinstance(e, ast.IfExp):
+                tv = test_value(e.test, {x: frozenset({k})})
+                if tv is True:
+                    return elem_kind(e.body, x, k)
+                if tv is False:
+                    return elem_kind(e.orelse, x, k)
+                a, b = elem_kind(e.body, x, k), elem_kind(e.orelse, x, k)
+                return a if a == b else 'unknown'
+            return 'unknown'
+
+        def mapped_kinds(call, env):
+            """kinds of the elements of  helper(<var-arg>)  where helper returns  [E for x in <its parameter>]"""
+            names = [a_ for a_ in call.args if isinstance(a_, ast.Name) and a_.id in env]
+            if len(call.args) != 1 or not names:
+                return None
+            hname = call.func.attr if isinstance(call.func, ast.Attribute) else (call.func.id if isinstance(call.func, ast.Name) else None)
+            helper = None
+            if hname is not None:
+                if isinstance(call.func, ast.Attribute) and fd.cls is not None:
+                    o, kd, h = fd.cls.lookup(hname)
+                    helper = h if kd in ('method', 'staticmethod', 'classmethod') else None
+                elif hname in data.functions:
+                    helper = data.functions[hname]
+            if helper is None:
+                return frozenset({'unknown'})
+            body = strip_doc(helper.node.body)
+            params = [p_ for p_ in helper.params() if p_ not in ('self', 'cls')]
+            if len(body) == 1 and isinstance(body[0], ast.Return) and isinstance(body[0].value, (ast.ListComp, ast.GeneratorExp)) \
+                    and len(params) == 1 and len(body[0].value.generators) == 1 and not body[0].value.generators[0].ifs \
+                    and norm(body[0].value.generators[0].iter) == params[0] and isinstance(body[0].value.generators[0].target, ast.Name):
+                x = body[0].value.generators[0].target.id
+                return frozenset(elem_kind(body[0].value.elt, x, k) for k in env[names[0].id])
+            return frozenset({'unknown'})
+
         def visit_calls(s, env):
             for c in calls_in(s):
                 if isinstance(c.func, ast.Attribute) and _is_content_list(c.func.value) and c.func.attr in ('insert', 'append', 'extend'):
                     arg = c.args[-1] if c.args else None
                     if isinstance(arg, ast.Name) and arg.id in env:
                         results.append((c, env[arg.id], fd))
-                if isinstance(c.func, ast.Attribute) and c.func.attr in ('insert', 'append') and norm(c.func.value) in ('self', 'self.expr') \
+                if isinstance(c.func, ast.Attribute) and c.func.attr in ('insert', 'append') and not _is_content_list(c.func.value) \
                         and depth < 3:
+                    # the receiver is this node's expression, or one of its argument groups: an expression either way
                     star = [a_ for a_ in c.args if isinstance(a_, ast.Starred)]
-                    if star and isinstance(star[0].value, ast.Name) and star[0].value.id in env:
-                        tgt = _m(texexpr, c.func.attr)
-                        results.extend(sink_kinds(tgt, env[star[0].value.id], depth + 1))
+                    if star:
+                        kinds = None
+                        if isinstance(star[0].value, ast.Name) and star[0].value.id in env:
+                            kinds = env[star[0].value.id]
+                        elif isinstance(star[0].value, ast.Call):
+                            kinds = mapped_kinds(star[0].value, env)
+                        if kinds is not None:
+                            tgt = _m(texexpr, c.func.attr)
+                            results.extend(sink_kinds(tgt, kinds, depth + 1))
 
         def run(stmts, env):
             """-> list of environments at the end of the block (empty if every path left it)"""
